@@ -76,7 +76,12 @@ for key in sorted(os.listdir(store)):
     meta["confirmed_by_me"] = {"cmd": "MUTROOT=%s /verif/tools/confirm3.sh %s" % (root, key), "result": first}
     meta["checked_with"] = "/verif/tools/trymutant2.sh /verif/seeded/r%s-%s/patch.diff %s" % (rnd, key, meta.get("property"))
     meta["caught_on_first_try"] = first_caught
-    if f is None or f["exit"] == -1:
+    if f is None:
+        if old_labels.get(key):
+            meta["caught_by"] = "; ".join(old_labels[key][:3]) + " (from an earlier evaluation; not re-run at the very end)"
+        else:
+            meta["caught_by"] = "not re-evaluated at the very end"
+    elif f["exit"] == -1:
         status = "not evaluated in the final run: the patch no longer applies to the repaired tree (a later repair rewrote the code it changes)"
         if old_labels.get(key):
             status += "; when it still applied it was caught by " + "; ".join(old_labels[key][:3])
